@@ -34,7 +34,7 @@ caught=""; missed=""
 cp "$out/patch.diff" "$W/p.diff"
 for p in "$@"; do
   MUTANT_SKIP_TESTS=1 MUTANT_LINES=6 timeout 3000 /verif/tools/mutant.sh "$W/p.diff" "$p" > "$W/check.$p.log" 2>&1
-  if grep -q "== $p exit=1" "$W/check.$p.log" && grep -q "^VIOLATION property=$p" "$W/check.$p.log"; then caught="$caught $p"; else missed="$missed $p"; fi
+  if grep -q "== $p exit=1" "$W/check.$p.log" && ! grep -q "violation lines: 0)" "$W/check.$p.log"; then caught="$caught $p"; else missed="$missed $p"; fi
   grep -E "^(VIOLATION|  signature|== )" "$W/check.$p.log" | head -5
 done
 sigs=$(cat "$W"/check.*.log 2>/dev/null | grep "  signature:" | head -6 | sed 's/  signature: //' | tr '\n' ';' | sed 's/"/\\"/g')
